@@ -1,6 +1,6 @@
 SPECIFICATION Spec
 CONSTANTS Pkg <- PkgMulti  RecipeOf <- RecipeMulti  StrPrefix <- PrefixNone
-CONSTANTS NV = 2  NS = 1  MaxLen = 2  MaxChg = 2  MaxNum = 2  KeepRule = "prefix"  GenDepth = 0
+CONSTANTS NV = 2  NS = 1  MaxLen = 2  MaxChg = 2  MaxNum = 2  GenDepth = 0  KeepRule = "prefix"
 CONSTANT Weak = {}
 VIEW view
 INVARIANT TypeOK
